@@ -377,10 +377,18 @@ func (n ambassador) isUpdate(transaction dag.Transaction) bool {
 func (n ambassador) findKeyByThumbprint(thumbPrint []byte, didDocumentAuthKeys []did.VerificationRelationship) (jwk.Key, error) {
 	var documentKey jwk.Key
 	for _, key := range didDocumentAuthKeys {
+		if key.VerificationMethod == nil {
+			// a JSON null in the relationship array is unmarshalled to a relationship without verification method
+			return nil, errors.New("unable to generate JWK from verificationMethod: verificationMethod is missing")
+		}
 		// Create thumbprint
 		keyAsJWK, err := key.JWK()
 		if err != nil {
 			return nil, fmt.Errorf("unable to generate JWK from verificationMethod: %w", err)
+		}
+		if keyAsJWK == nil {
+			// JWK() returns nil without an error when the verification method has no publicKeyJwk
+			return nil, errors.New("unable to generate JWK from verificationMethod: publicKeyJwk is missing")
 		}
 		documentThumbprint, err := keyAsJWK.Thumbprint(thumbprintAlg)
 		if err != nil {
